@@ -153,7 +153,8 @@ func c17RuntimeRun(steps []c17Step) (string, error) {
 				continue
 			}
 			maskTag = base + 4
-			maskNames = []string{fmt.Sprintf("VerifFlag%dA", ep), fmt.Sprintf("VerifFlag%dB", ep), fmt.Sprintf("VerifFlag%dC", ep)}
+			// four bits, the second one reserved (no name), as the registration API allows
+			maskNames = []string{fmt.Sprintf("VerifFlag%dA", ep), "", fmt.Sprintf("VerifFlag%dC", ep), fmt.Sprintf("VerifFlag%dD", ep)}
 			if err := safely(func() error { ttlv.RegisterBitmask[vendorMaskA](maskTag, maskNames...); return nil }); err != nil {
 				return "runtime-register-panics", fmt.Errorf("step %d: %w", i, err)
 			}
@@ -207,12 +208,15 @@ func c17RuntimeRun(steps []c17Step) (string, error) {
 		}
 		if maskTag != 0 {
 			for b, n := range maskNames {
+				if n == "" {
+					continue
+				}
 				if got, err := ttlv.BitmaskByStr(maskTag, n); err != nil || got != 1<<b {
 					return "runtime-mask-by-name", fmt.Errorf("step %d: BitmaskByStr(0x%06X, %q) = %d, %v; want %d", i, maskTag, n, got, err, 1<<b)
 				}
 			}
-			if got := string(ttlv.AppendBitmaskString(nil, maskTag, vendorMaskA(5), "|")); got != maskNames[0]+"|"+maskNames[2] {
-				return "runtime-mask-name", fmt.Errorf("step %d: mask value 5 of 0x%06X is written %q", i, maskTag, got)
+			if got := string(ttlv.AppendBitmaskString(nil, maskTag, vendorMaskA(13), "|")); got != maskNames[0]+"|"+maskNames[2]+"|"+maskNames[3] {
+				return "runtime-mask-name", fmt.Errorf("step %d: mask value 13 of 0x%06X is written %q", i, maskTag, got)
 			}
 		}
 	}
